@@ -100,6 +100,20 @@ fn project_case(n: usize, p: &Project, wl: &[(String, Option<&str>)], sections: 
         (Err(_), None) => a.ok += 1,
         (w, got) => a.viols.push(Viol { key: key("run-output"), desc: format!("`asca run` wrote {:?} (exit {:?}), the library gives {:?}; stdout: {}", got, o.code, w, o.stdout.replace('\n', " | ")), case: case() }),
     }
+    // (1b) the same run over an output file that already exists and is LONGER (left by a run on more words): answering `y` to the
+    // overwrite question must leave exactly the new result in the file
+    if let Ok(w) = &want {
+        a.evals += 1;
+        let mut stale = w.join("\n"); stale.push_str("\nstale.line.one\nstale.line.two\nand.a.third");
+        sb.write("over.wsca", &stale);
+        let mut args = vec!["run", "-r", "in.rsca", "-w", "in.wsca", "-o", "over.wsca"];
+        if sections != 0 { args.extend(["-l", "in.alias"]); }
+        let o = run_cli_stdin(&sb.dir, &args, "y\n"); a.procs += 1;
+        match sb.read("over.wsca") {
+            Some(got) if o.code == Some(0) && got == w.join("\n") => a.ok += 1,
+            got => a.viols.push(Viol { key: key("run-overwrite"), desc: format!("`asca run -o` over an existing longer file (answer y) left {:?} (exit {:?}), the library gives {:?}", got, o.code, w), case: case() }),
+        }
+    }
     // (2) conv asca == model
     a.evals += 1;
     let mut args = vec!["conv", "asca", "-w", "in.wsca", "-r", "in.rsca", "-o", "p.json"];
@@ -173,7 +187,7 @@ pub fn run() -> i32 {
     let mut r = Report::new("C19");
     if !cli_available() { r.machinery_errors.push(format!("{} not built", CLI)); return r.finish(); }
     let thorough = r.thorough();
-    r.rule = "every generated project (1-2 (3) rule groups x name {empty, word, words with punctuation} x 1-2 rules x description {none, one line, two lines, three lines with an empty one in the middle}; word lists with comments, comment-only and blank lines, multi-word lines; alias files with neither / either / both sections, lines that begin with a named escape `@{..}`, indented and not) serialised to .rsca in every documented layout (indent, blank line between rules, blank line between groups, space after @/#): the real `asca` binary is run in a fresh directory: `run -o` output == asca::run(model), also with the project given as json (`-j`, with and without `-w`); `conv asca` json == model; json -> `conv json` -> files -> `conv asca` -> json is the identity; running the converted files gives the same words. Plus the .rsca reader as a line state machine: every sequence of <= N line kinds {@name, #desc, blank, rule, indented rule, bare #}: conv asca . conv json . conv asca == conv asca, and agreement with the manual's reading on documented layouts. Non-trivial = comparisons that held.".into();
+    r.rule = "every generated project (1-2 (3) rule groups x name {empty, word, words with punctuation} x 1-2 rules x description {none, one line, two lines, three lines with an empty one in the middle}; word lists with comments, comment-only and blank lines, multi-word lines; alias files with neither / either / both sections, lines that begin with a named escape `@{..}`, indented and not) serialised to .rsca in every documented layout (indent, blank line between rules, blank line between groups, space after @/#): the real `asca` binary is run in a fresh directory: `run -o` output == asca::run(model), also when the output file already exists and is longer (answer `y`), also with the project given as json (`-j`, with and without `-w`); `conv asca` json == model; json -> `conv json` -> files -> `conv asca` -> json is the identity; running the converted files gives the same words. Plus the .rsca reader as a line state machine: every sequence of <= N line kinds {@name, #desc, blank, rule, indented rule, bare #}: conv asca . conv json . conv asca == conv asca, and agreement with the manual's reading on documented layouts. Non-trivial = comparisons that held.".into();
     let projs = projects(thorough);
     let layouts: Vec<usize> = if thorough { (0..16).collect() } else { vec![0, 1, 7, 13] };
     let jobs: Vec<(usize, usize)> = (0..projs.len()).flat_map(|i| layouts.iter().map(move |l| (i, *l))).collect();
